@@ -137,6 +137,10 @@ type Case struct {
 	Engine         string         `json:"engine"` // v1 | v2
 	PersistDelayMs int            `json:"persist_delay_ms"`
 	PersistBundle  int            `json:"persist_bundle"`
+	// GatePluginCalls: Open, Stop and Teardown of the fake connectors and processors answer at
+	// scheduler-chosen instants (slow plugin calls; a call whose context is cancelled meanwhile
+	// answers right after the engine stopped waiting for it).
+	GatePluginCalls bool `json:"gate_plugin_calls,omitempty"`
 	// FreeSched: the boundary scheduler is switched off, every plugin answers at once; the
 	// interleaving is left to the Go scheduler (reaches windows inside the engine that lie
 	// between two plugin boundaries, at the price of a replay that is not schedule-exact).
